@@ -103,7 +103,7 @@ TEXT = {
         note="Trusted: TLC/SANY/CommunityModules Json, Go toolchain, cosmos-sdk bank, the harness projection. Fees are "
              "rationals with denominators dividing 10^18 so the model's floor divisions are bit-exact; reserves, "
              "supplies and amounts stay below ~100 so that quartic products fit TLC's 32-bit integers; the 2^128 "
-             "range of the quantifier needs the Apalache tier (not built yet)."),
+             "range of the quantifier is covered by the big-number tier: harness-coinswapbig drives the real chain with reserves, shares and trades in stratified magnitudes up to ~2^128 and Apalache evaluates the same clause operators (CoinswapClauses.tla) on every row (DESIGN 13.8, 13.10); unbounded lemmas for the price functions and the liquidity formulas are proved by Apalache (CoinswapLemmas*.tla)."),
     "C02": dict(
         design="DESIGN.md 8 (C02), 3",
         text="Same specification and traces as C01 with the full balance sheet of three users, both pool escrows, "
